@@ -122,7 +122,9 @@ class Impl:
             v, nm = op[1], op[2]
             extra = op[3] if len(op) > 3 else {}
             assert v == len(V)
-            if extra.get("tensor") == "proto":
+            if "shape" in extra:
+                self._reg("v", ir.Value(name=nm, shape=ir.Shape(extra["shape"], frozen=bool(extra.get("frozen")))))
+            elif extra.get("tensor") == "proto":
                 import numpy as np
                 import onnx
                 from onnx_ir import serde
@@ -277,6 +279,8 @@ class Impl:
             kind, g, a, b = op[1:5]
             step = op[5] if len(op) > 5 else None
             del self._io(kind, g)[a:b:step]
+        elif k == "X_MergeShapes":
+            V[op[1]].merge_shapes(None if op[2] is None else ir.Shape(op[2]))
         elif k == "X_VSetNameRaw":
             V[op[1]].name = op[2]                  # any object, also names the backing tensor refuses
         elif k == "X_IOSort":
@@ -335,7 +339,8 @@ def observe(im: Impl) -> dict:
             "uses": [[im.h(u.node, "n"), u.idx] for u in v.uses()],
             "consumers": [im.h(n, "n") for n in v.consumers()],
             "in": bool(v.is_graph_input()), "out": bool(v.is_graph_output()), "init": bool(v.is_initializer()),
-            "graph": im.h(v.graph, "g"), "const": _tensor_obs(v.const_value)})
+            "graph": im.h(v.graph, "g"), "const": _tensor_obs(v.const_value),
+            "shape": None if v.shape is None else [str(d) for d in v.shape], "type": None if v.type is None else repr(v.type)})
     nodes = []
     for n in im.nodes:
         nodes.append({
@@ -565,6 +570,8 @@ def site_of(op: list, outcome: str) -> str | None:
         return "init-ior-untracked"
     if k in ("X_InitUpdate", "X_InitSetDefault") and outcome == "ValueError":
         return "init-setitem-partial"
+    if k == "X_MergeShapes" and raised:
+        return "merge-shapes-partial"
     if k == "X_ConvReplaceAllUses" and raised:
         return "conv-replace-all-uses-not-atomic"
     if k == "X_ConvReplaceNodesAndValues" and raised:
@@ -1309,7 +1316,7 @@ def run_check(ck, which: str) -> None:  # noqa: C901, PLR0912, PLR0915
     ck.coverage["multi_graph_stream"] = ("nested graphs (2-8 permuted If-like bodies, one cyclic scope) + Graph.sort on top/nested "
                                          "graphs; rename_values / replace_all_uses_with spanning >= 2 graphs with the invalid "
                                          "element in a later graph")
-    ck.coverage["ops_oracle_only"] = ["IOSetSlice/IODelSlice with step or negative bounds", "IOSort", "VSetName to a non-str / unencodable name", "InitPopItem", "InitUpdate", "InitSetDefault", "InitIOr",
+    ck.coverage["ops_oracle_only"] = ["IOSetSlice/IODelSlice with step or negative bounds", "IOSort", "VSetName to a non-str / unencodable name", "Value.merge_shapes", "InitPopItem", "InitUpdate", "InitSetDefault", "InitIOr",
                                       "GSort", "GRegisterInitializer", "ConvReplaceAllUses", "ConvRenameValues",
                                       "ConvReplaceNodesAndValues"]
     ck.prove()
@@ -1430,12 +1437,12 @@ def run_check(ck, which: str) -> None:  # noqa: C901, PLR0912, PLR0915
         if st and st[-1][which]:
             report([s["op"] for s in st], len(st) - 1, st[-1], st[-1])
     # ---- 4b. rejected edits spanning several graphs: nested sort with one cyclic scope, multi-graph convenience calls
-    n_mg = 300 if not ck.thorough else 3000
+    n_mg = 360 if not ck.thorough else 3600
     for i in range(-len(corpus_oracle_only), n_mg):
         if i < 0:
             ops = corpus_oracle_only[i]
         gen = (gen_nested_sort, gen_slices, gen_multi_rename, gen_refused_names, gen_multi_rau, gen_slices,
-               gen_nested_sort, gen_slices, gen_multi_rename, gen_refused_names)[i % 10]
+               gen_nested_sort, gen_slices, gen_multi_rename, gen_refused_names, gen_merge_shapes, gen_slices)[i % 12]
         if i >= 0:
             ops = gen(rng)
         st = run_history(ops)["steps"]
@@ -1749,13 +1756,23 @@ def gen_slices(rng) -> list[list]:
                 vs = list(old)
             else:
                 vs = [rng.choice(pool) for _ in range(rng.randrange(0, 4))]
-            if rng.random() < 0.2 and n >= 2:                              # extended slice, matching size
-                a, e, step = rng.randrange(0, 2), n, 2
-                vs = [rng.choice(pool) for _ in cur[a:e:step]]
-                if rng.random() < 0.25:
-                    vs = vs + [rng.choice(pool)]                           # wrong size: list refuses the assignment
+            if rng.random() < 0.35 and n >= 1:                             # extended slice
+                step = rng.choice([2, 2, 3, -1, -1, -2, 100, -100, 0])
+                if step > 0:
+                    a, e = rng.randrange(0, 2), n
+                elif rng.random() < 0.5:
+                    a, e = None, None                                          # lst[::-1], lst[::-2]
+                else:
+                    a, e = n - 1, rng.choice([None, 0])                       # lst[n-1:0:-1]
+                size = len(cur[a:e:step]) if step else 1
+                vs = [rng.choice(pool) for _ in range(size)]
+                r2 = rng.random()
+                if r2 < 0.2:
+                    vs = vs + [rng.choice(pool)]                           # one too many: list refuses the assignment
+                elif r2 < 0.4 and vs:
+                    vs = vs[:-1]                                           # one too few
                 op = ["X_IOSetSlice", kind, g, a, e, vs, step]
-                if len(vs) == len(cur[a:e:step]):
+                if step and len(vs) == size:
                     cur[a:e:step] = vs
             else:
                 op = ["IOSetSlice", kind, g, a, e, vs]
@@ -1763,9 +1780,11 @@ def gen_slices(rng) -> list[list]:
         elif r < 0.6:
             a = rng.randrange(0, n + 1)
             e = rng.randrange(a, n + 1)
-            if rng.random() < 0.25 and n >= 2:
-                op = ["X_IODelSlice", kind, g, 0, n, 2]
-                del cur[0:n:2]
+            if rng.random() < 0.35 and n >= 1:
+                step = rng.choice([2, -1, -2, 3, 100])
+                lo, hi = (0, n) if step > 0 else (None, None)
+                op = ["X_IODelSlice", kind, g, lo, hi, step]
+                del cur[lo:hi:step]
             else:
                 op = ["IODelSlice", kind, g, a, e]
                 del cur[a:e]
@@ -1814,4 +1833,36 @@ def gen_refused_names(rng) -> list[list]:
         else:
             b.ops.append(["VSetName", v, rng.choice(["u5", "u6", "u1", None])])
     b.ops.append(["InitPop", g, "u0"] if rng.random() < 0.3 else ["X_VSetNameRaw", rng.choice(vals[:2]), rng.choice(REFUSED_NAMES)])
+    return b.ops
+
+
+DIMS = [None, 1, 3, 4, 5, "N", "M"]
+
+
+def gen_merge_shapes(rng) -> list[list]:
+    """Value.merge_shapes on values with (frozen or not) shapes: compatible merges, rank mismatch, and a conflicting
+    concrete dimension at every position after dimensions that the merge would refine."""
+    b = _B()
+    rank = rng.randrange(1, 5)
+    shape = [rng.choice(DIMS) for _ in range(rank)]
+    b.ops.append(["NewValue", b.nv, "u0", {"shape": shape, "frozen": rng.random() < 0.3}])
+    v = b.nv
+    b.nv += 1
+    for _ in range(rng.randrange(1, 4)):
+        r = rng.random()
+        if r < 0.1:
+            other = None
+        elif r < 0.2:
+            other = [rng.choice(DIMS) for _ in range(rank + rng.choice([-1, 1]))] if rank > 1 else [1, 1]
+        else:
+            other = [d if (isinstance(d, int) and rng.random() < 0.6) else rng.choice([d, 5, 3, "N", None]) for d in shape]
+            if rng.random() < 0.5:
+                ints = [i for i, d in enumerate(shape) if isinstance(d, int)]
+                if ints:
+                    k = rng.choice(ints)
+                    other[k] = shape[k] + 1                           # conflict at position k
+                    for j in range(k):                                # earlier positions get refined first
+                        if not isinstance(shape[j], int):
+                            other[j] = rng.choice([5, 3, "M"])
+        b.ops.append(["X_MergeShapes", v, other])
     return b.ops
